@@ -22,7 +22,7 @@ import (
 )
 
 func TestMain(m *testing.M) {
-	vstat.Rule("Generated schedules: the wrapped handler is a gate (reports 'entered', blocks until released, then returns or panics), so the harness owns the interleaving of starts and completions. State machine over limit 0..4 and sources {a,b,c} (built-in request.header extractor): start(source), finish(k, normal|panic), then a drain-and-refill epilogue. Oracle: model = in-flight count per source; a start is admitted iff count < limit (both directions), rejected requests answer 429 and never enter the handler, concurrency seen inside the handler <= limit, after all requests finished every source reaches exactly the full limit again (also after panics). Real-goroutine variant (race build): unserialised goroutines hammer one limiter; the recorded acquire/release history is checked for linearizability against the counter model (porcupine). Non-trivial: >= 2 sources interleaved and >= 1 rejection and (>= 1 panic or limit >= 2).")
+	vstat.Rule("Generated schedules: the wrapped handler is a gate (reports 'entered', blocks until released, then returns or panics), so the harness owns the interleaving of starts and completions. State machine over limit 0..4 and sources {a,b,c} (built-in request.header extractor; a third of the cases stack a second limiter keyed by another header with its own limit 1..5 in front, admitted iff both have room): start(source), finish(k, normal|panic), then a drain-and-refill epilogue. Oracle: model = in-flight count per source; a start is admitted iff count < limit (both directions), rejected requests answer 429 and never enter the handler, concurrency seen inside the handler <= limit, after all requests finished every source reaches exactly the full limit again (also after panics). Real-goroutine variant (race build): unserialised goroutines hammer one limiter; the recorded acquire/release history is checked for linearizability against the counter model (porcupine). Non-trivial: >= 2 sources interleaved and >= 1 rejection and (>= 1 panic or limit >= 2).")
 	vstat.Main(m.Run)
 }
 
@@ -54,11 +54,30 @@ func TestC04_Schedules(t *testing.T) {
 			}
 			mu.Unlock()
 		}
-		cl := newLimiter(t, gate, int64(limit))
+		var cl http.Handler = newLimiter(t, gate, int64(limit))
 		model := map[string]int{}
+		// a share of cases puts a second, independent limiter (keyed by another header, with its
+		// own limit) in front: a request is admitted iff BOTH have room, and a request the inner
+		// one rejects must not keep a slot of the outer one
+		outerLimit := 0
+		grps := []string{"a", "b", "g"} // group names may coincide with source names: the two limiters are still independent
+		modelG := map[string]int{}
+		if rapid.IntRange(0, 2).Draw(t, "stacked") == 0 {
+			outerLimit = rapid.IntRange(1, 5).Draw(t, "outerLimit")
+			ex, err := utils.NewExtractor("request.header.X-Grp")
+			if err != nil {
+				t.Fatalf("NewExtractor: %v", err)
+			}
+			outer, err := connlimit.New(cl, ex, int64(outerLimit))
+			if err != nil {
+				t.Fatalf("connlimit.New: %v", err)
+			}
+			cl = outer
+		}
 		type fl struct {
 			c      *sim.Call
 			src    string
+			grp    string
 			cancel func()
 		}
 		var inflight []fl
@@ -69,26 +88,40 @@ func TestC04_Schedules(t *testing.T) {
 			ctx, cancel := context.WithCancel(context.Background())
 			req := httptest.NewRequest("GET", "http://x/", nil).WithContext(ctx)
 			req.Header.Set("X-Src", src)
+			grp := ""
+			if outerLimit > 0 {
+				grp = rapid.SampledFrom(grps).Draw(t, "grp")
+				req.Header.Set("X-Grp", grp)
+				mustAdmit, mustReject = false, false
+			}
 			c, err := gate.Start(cl, req)
 			if err != nil {
 				t.Fatalf("%v", err)
 			}
 			wantAdmit := model[src] < limit
+			if outerLimit > 0 {
+				wantAdmit = wantAdmit && modelG[grp] < outerLimit
+			}
+			tag := src
+			if grp != "" {
+				tag = src + "/" + grp
+			}
 			used[src] = true
 			if c.Entered {
-				log = append(log, "start("+src+")=admitted")
+				log = append(log, "start("+tag+")=admitted")
 				if !wantAdmit || mustReject {
-					t.Fatalf("limit %d: source %s already has %d requests in flight but another one was admitted\nschedule: %s", limit, src, model[src], strings.Join(log, " "))
+					t.Fatalf("limit %d (outer limiter: %d per group): source %s already has %d requests in flight (its group %d) but another one was admitted\nschedule: %s", limit, outerLimit, tag, model[src], modelG[grp], strings.Join(log, " "))
 				}
 				model[src]++
-				inflight = append(inflight, fl{c, src, cancel})
+				modelG[grp]++
+				inflight = append(inflight, fl{c, src, grp, cancel})
 				return
 			}
 			cancel()
-			log = append(log, fmt.Sprintf("start(%s)=%d", src, c.Rec.Status()))
+			log = append(log, fmt.Sprintf("start(%s)=%d", tag, c.Rec.Status()))
 			rejections++
 			if wantAdmit || mustAdmit {
-				t.Fatalf("limit %d: source %s has only %d requests in flight but the request was rejected with %d\nschedule: %s", limit, src, model[src], c.Rec.Status(), strings.Join(log, " "))
+				t.Fatalf("limit %d (outer limiter: %d per group): source %s has only %d requests in flight (its group %d) but the request was rejected with %d\nschedule: %s", limit, outerLimit, tag, model[src], modelG[grp], c.Rec.Status(), strings.Join(log, " "))
 			}
 			if c.Rec.Status() != http.StatusTooManyRequests {
 				t.Fatalf("rejected request answered %d, want 429\nschedule: %s", c.Rec.Status(), strings.Join(log, " "))
@@ -110,7 +143,7 @@ func TestC04_Schedules(t *testing.T) {
 				mutations++
 			case 1: // ... or rewrites it to another source's value
 				other := rapid.SampledFrom(srcs).Draw(t, "rewriteTo")
-				o.Mutate = func(r *http.Request) { r.Header.Set("X-Src", other) }
+				o.Mutate = func(r *http.Request) { r.Header.Set("X-Src", other); r.Header.Del("X-Grp") }
 				mutations++
 			}
 			if err := f.c.Finish(o); err != nil {
@@ -124,7 +157,8 @@ func TestC04_Schedules(t *testing.T) {
 				}
 			}
 			model[f.src]--
-			log = append(log, fmt.Sprintf("finish(%s,panic=%v)", f.src, panic))
+			modelG[f.grp]--
+			log = append(log, fmt.Sprintf("finish(%s%s,panic=%v)", f.src, f.grp, panic))
 		}
 		n := rapid.IntRange(1, 40).Draw(t, "nops")
 		for i := 0; i < n; i++ {
@@ -178,7 +212,10 @@ func TestC04_Schedules(t *testing.T) {
 		if limit >= 2 {
 			cl2 = append(cl2, "limit>=2")
 		}
-		vstat.Case(fmt.Sprintf("%d|%s", limit, strings.Join(log, " ")), nt, cl2, map[string]any{"limit": limit, "schedule": strings.Join(log, " ")})
+		if outerLimit > 0 {
+			cl2 = append(cl2, "two-stacked-limiters")
+		}
+		vstat.Case(fmt.Sprintf("%d/%d|%s", limit, outerLimit, strings.Join(log, " ")), nt, cl2, map[string]any{"limit": limit, "schedule": strings.Join(log, " ")})
 	})
 }
 
